@@ -195,6 +195,29 @@ def gen_doc(rng, kind, pal, tag):
         spec["body"] = [body_colors(n1), body_colors(n2)]
         spec["headers"] = [[dict(text=[f"H{j}" for j in range(n1)], text_color=pick())],
                            [dict(text=[f"K{j}" for j in range(n2)])]]
+    elif kind in ("fontmix", "font14"):
+        # a pair for shared state in the width-measuring path: one document switches between font sizes while it is
+        # measured, the other is paginated by widths measured at the size the first one switches to
+        from .. import laygen
+
+        nc = 2
+        cw = 6.25 / nc
+        words = ["lorem", "ipsum", "dolor", "sit", "amet", "elit"]
+        t = f"{tag}w"
+        while laygen.measure(t, 1, 14) < 1.35 * cw:
+            t += " " + rng.choice(words)
+        if kind == "fontmix":
+            spec["df"] = dict(cols=[f"{tag}c0", f"{tag}c1"], rows=[[f"{tag}{i}_0", f"{tag}{i}_1"] for i in range(3)])
+            b = body_colors(nc)
+            b["text_font_size"] = [9, 14]
+        else:
+            spec["df"] = dict(cols=[f"{tag}c0", f"{tag}c1"],
+                              rows=[[f"{tag}{i}_0", t if i % 2 == 0 else f"{tag}{i}_1"] for i in range(5)])
+            b = body_colors(nc)
+            b["text_font_size"] = 14
+            spec["page"] = dict(nrow=5)
+        spec["body"] = b
+        spec["headers"] = [dict(text=[f"H{j}" for j in range(nc)])]
     elif kind == "figure":
         spec["kind"] = "figure"
         nf = rng.randint(1, 2)
@@ -594,6 +617,7 @@ def run_unit(res, tier, n2t):
 def prepare_sets(res, tier):
     """document sets + fresh solo strings + traced solo logs; fills _BASE"""
     plan = [("pair-tables", ["table", "table"] if tier == "thorough" else ["tsmall", "tsmall"])]
+    plan += [("pair-fonts", ["fontmix", "font14"])]
     if tier == "thorough":
         plan += [("pair-multi-pageby", ["multi", "pageby"]), ("pair-figure-subline", ["figure", "subline"]),
                  ("triple", ["table", "pageby", "figure"])]
@@ -699,6 +723,10 @@ def run_sched(res, tier, n2t):
             fams += sampled(calls, gp, rng, 200 if tier == "quick" else 700, 2)
             fams += sampled(calls, gp, rng, 200 if tier == "quick" else 700, 3)
             fams += guided3(calls, gp, rng, 200 if tier == "quick" else 700)
+        if name == "pair-fonts" and tier == "quick":
+            # the document that switches font sizes is parked at every library call boundary while the other one is
+            # encoded from start to finish
+            fams += [f for f in single_preemption(n, calls) if f[1][0][0] == 0]
         if n == 3:
             # single preemption of each of the three threads at the switch points next to its shared accesses
             fams += [f for f in single_preemption(n, calls) if f[1][0][1] in set(gp[f[1][0][0]])]
